@@ -1,4 +1,5 @@
 import NbioVerif.Model.ReadPath
+import NbioVerif.Model.FdTable
 import NbioVerif.DrvCommon
 /-! gatedrv: runs the ReadPath model on the annotated ops of `hread` (see harness/cmd/hread/main.go) -/
 open ReadPath
@@ -41,6 +42,8 @@ structure DS where
   nDlv : Nat := 0
   intrTotal : Nat := 0
   dead : Bool := false
+  ft : FdTable.T := {}                 -- the side conns of the engine (fd table model)
+
 
 def ctlStr (g : Cfg) (s : St) : String :=
   let a := match g.mode with | .lt => "Ar" | .et => "Arwe" | .os => "Areo"
@@ -63,6 +66,20 @@ def cerrStr : CErr → String
 def hex16 (n : UInt64) : String :=
   let d := (List.range 16).map fun i => Drv.hexDigit ((n >>> (UInt64.ofNat ((15 - i) * 4))).toNat % 16)
   String.ofList d
+
+/-- side conns: `X <op> side=[k:sent:got:fnv(got):live,…]` -/
+def sideStr (t : FdTable.T) : String :=
+  let l := (t.conns.toArray.qsort (fun a b => a.k < b.k)).toList
+  String.intercalate "," (l.map fun s => s!"{s.k}:{s.sent.length}:{s.got.length}:{hex16 (Drv.fnv s.got)}:{b2s s.live}")
+
+def sideGet (t : FdTable.T) (k : Nat) : Option FdTable.Side := t.conns.find? (·.k == k)
+
+/-- `k1 p1 k2 p2 …` -/
+def sidePairs : List String → Option (List (Nat × List UInt8))
+  | [] => some []
+  | k :: p :: r => (sidePairs r).map fun l => (k.toNat!, Drv.payload p) :: l
+  | _ => none
+
 
 def showSt (d : DS) (what : String) : String × DS :=
   let s := d.s
@@ -192,6 +209,41 @@ partial def loop (h : IO.FS.Stream) (d : DS) : IO Unit := do
           let (l, d) := showSt d "spin"
           IO.println l
           loop h { d with dead := true }
+    | "xadd" :: _ | "xsend" :: _ | "xclose" :: _ | "xreuse" :: _ =>
+      -- further stream conns of the same engine: every change goes through `FdTable.step`
+      let sideOK := !g.udp && !g.isAsync
+      let sayX (t : FdTable.T) (what : String) : IO Unit := do
+        IO.println s!"X {what} side=[{sideStr t}]"
+        loop h { d with ft := t }
+      let badX : IO Unit := do IO.println "bad-op"; loop h d
+      if !sideOK then badX else
+      match ws with
+      | ["xadd", k] =>
+        if (sideGet d.ft k.toNat!).isSome then badX
+        else sayX (FdTable.step d.ft (.add k.toNat! k.toNat!)) "xadd"
+      | "xsend" :: rest =>
+        match sidePairs rest with
+        | some ps =>
+          if ps.isEmpty || !ps.all (fun (k, _) => match sideGet d.ft k with | some s => s.live | none => false) then badX
+          else
+            let t := ps.foldl (fun t (k, b) => FdTable.step t (.send k b)) d.ft
+            let t := ps.foldl (fun t (k, _) => match sideGet t k with | some s => FdTable.step t (.event s.slot) | none => t) t
+            sayX t "xsend"
+        | none => badX
+      | ["xclose", k] =>
+        match sideGet d.ft k.toNat! with
+        | some s => if s.live then sayX (FdTable.step d.ft (.close k.toNat!)) "xclose" else badX
+        | none => badX
+      | ["xreuse", k, j, p] =>
+        match sideGet d.ft k.toNat! with
+        | some s =>
+          if s.live || (sideGet d.ft j.toNat!).isSome then badX
+          else
+            -- the new conn takes the old conn's descriptor number; stale events for that number are still in the batch
+            let t := FdTable.run d.ft [.add j.toNat! s.slot, .send j.toNat! (Drv.payload p), .event s.slot, .event s.slot, .event s.slot]
+            sayX t "xreuse"
+        | none => badX
+      | _ => badX
     | ["key", a] =>
       match parseAddr a with
       | some a => IO.println ("K " ++ Drv.hex (udpKey a)); loop h d
